@@ -7,7 +7,7 @@ use serde_json::json;
 
 pub struct Sinks;
 
-const ALL_SINKS: [SinkKind; 9] = [SinkKind::Owned, SinkKind::ToVec, SinkKind::Chunk, SinkKind::Plain, SinkKind::DynChunk, SinkKind::SimWrite, SinkKind::Cursor, SinkKind::BufWriter, SinkKind::UsingEncoded];
+const ALL_SINKS: [SinkKind; 11] = [SinkKind::Owned, SinkKind::KeyedVec, SinkKind::Joiner, SinkKind::ToVec, SinkKind::Chunk, SinkKind::Plain, SinkKind::DynChunk, SinkKind::SimWrite, SinkKind::Cursor, SinkKind::BufWriter, SinkKind::UsingEncoded];
 
 impl Scenario for Sinks {
     fn name(&self) -> &'static str {
@@ -51,12 +51,16 @@ impl Scenario for Sinks {
         }
         p.sources.push(gen_benign_source(&mut rng, true));
         p.set("cut_permille", rng.below(1000) as i64);
+        p.set("fix_skipped_variant", rng.chance(1, 40) as i64);
         p
     }
     fn run(&self, plan: &Plan, st: &mut Stats) -> Verdict {
         let cat = catalogue();
         let s = cat.get(&plan.subject);
         let v = plan.value.as_ref().expect("harness: sinks needs a value");
+        if plan.param("fix_skipped_variant") == 1 {
+            skipped_variant_values(plan.param("cut_permille") as u8, st)?;
+        }
         let mut reference: Option<Vec<u8>> = None;
         for sink in &plan.sinks {
             let out = (s.encode)(v, sink);
@@ -75,6 +79,16 @@ impl Scenario for Sinks {
         let sz = (s.encoded_size)(v);
         if sz != enc.len() {
             return viol("c07.encoded_size", format!("{}: value {}: encoded_size() = {} but the encoding has {} bytes", s.name, short(v), sz, enc.len()));
+        }
+        // the agreed encoding decodes back to the value (derived / wrapper types must not take a
+        // bulk path that is not theirs)
+        {
+            let back = (s.decode)(&enc, &SourceSpec::slice(), Mode::Decode);
+            match &back.res {
+                Ok(x) if x == v && back.taken == enc.len() => {},
+                Ok(x) => return viol("c07.decode_of_encoding", format!("{}: value {} encodes to {} bytes which decode to {} ({} bytes consumed)", s.name, short(v), enc.len(), short(x), back.taken)),
+                Err(e) => return viol("c07.decode_of_encoding", format!("{}: value {} encodes to {} which does not decode: {}", s.name, short(v), hex_short(&enc), e)),
+            }
         }
         if let Some(tn) = s.twin {
             let t = cat.get(tn);
@@ -116,4 +130,40 @@ impl Scenario for Sinks {
         st.sample(|| json!({"subject": s.name, "value": short(v), "encoding_len": enc.len(), "sinks": plan.sinks.iter().map(|k| format!("{:?}{:?}", k.kind, k.chunks)).collect::<Vec<_>>(), "twin": s.twin}));
         Ok(())
     }
+}
+
+/// Values in a `#[codec(skip)]` variant encode to nothing through every entry point (they have
+/// no model value, so they are exercised by this typed helper).
+fn skipped_variant_values(x: u8, st: &mut Stats) -> Verdict {
+    use crate::types::EnumSkip;
+    use parity_scale_codec::Encode;
+    #[derive(Encode)]
+    struct Holder {
+        a: u8,
+        e: EnumSkip,
+        b: u16,
+    }
+    fn all_forms<T: Encode>(what: &str, t: &T, want: &[u8]) -> Verdict {
+        let mut c = crate::seams::ChunkSink::new();
+        t.encode_to(&mut c);
+        let forms: [(&str, Vec<u8>); 3] = [("encode", t.encode()), ("encode_to", c.out), ("using_encoded", t.using_encoded(|b| b.to_vec()))];
+        for (n, f) in forms.iter() {
+            if f != want {
+                return viol("c07.sink_differs", format!("{what}: {n} gives {} but the value encodes to {}", hex_short(f), hex_short(want)));
+            }
+        }
+        if t.encoded_size() != want.len() {
+            return viol("c07.encoded_size", format!("{what}: encoded_size() = {} but the encoding has {} bytes", t.encoded_size(), want.len()));
+        }
+        Ok(())
+    }
+    all_forms("EnumSkip::S (skipped variant)", &EnumSkip::S(x), &[])?;
+    all_forms("&EnumSkip::S", &&EnumSkip::S(x), &[])?;
+    all_forms("Box<EnumSkip::S>", &Box::new(EnumSkip::S(x)), &[])?;
+    all_forms("(EnumSkip::S,)", &(EnumSkip::S(x),), &[])?;
+    let h = Holder { a: x, e: EnumSkip::S(1), b: 0x0102 };
+    all_forms("struct { u8, skipped-variant enum, u16 }", &h, &[x, 0x02, 0x01])?;
+    all_forms("Vec<EnumSkip::S>", &vec![EnumSkip::S(x), EnumSkip::B(7)], &[0x08, 0x01, 0x07])?;
+    st.probe("skipped_variant_values_checked");
+    Ok(())
 }
